@@ -7,6 +7,11 @@
 (*   template [set, m]                                                                       *)
 (*   log      the callback log: <<"cur", id>> for on_current, <<"unit", c, u>> for           *)
 (*            on_unit_changed (history variable, hidden by VIEW, predicted and compared)     *)
+(*   objs     tracked objects (Register): id -> [c, u] of the objects that are registered     *)
+(*            and alive; selecting a system (SetCurrent, and the selections made by Add /     *)
+(*            Remove) re-expresses every tracked object in that system's default unit of its  *)
+(*            category (UpdateObjects); changing a default unit of the current system does    *)
+(*            NOT (the code only notifies listeners) - modelled as the code behaves.          *)
 (* Mapping literals (Lits) are caller-side dict objects; the replayer passes the same dict   *)
 (* object whenever the model uses the same literal, so aliasing is part of the input space;  *)
 (* the specification says every system owns a copy.                                          *)
@@ -20,11 +25,16 @@ LitVal(l) == CASE l = "L1" -> [length |-> "m"]
                [] l = "L2" -> [length |-> "cm", time |-> "s"]
                [] l = "L3" -> [depth |-> "cm", time |-> "min"]
 
-VARIABLES order, maps, current, template, log, hist
-vars == <<order, maps, current, template, log, hist>>
+VARIABLES order, maps, current, template, log, hist, objs
+vars == <<order, maps, current, template, log, hist, objs>>
+\* the objects a client may create and register: category and the unit it is created with
+ObjPool == [o1 |-> [c |-> "length", u |-> "m"], o2 |-> [c |-> "time", u |-> "min"]]
+EmptyO == [x \in {} |-> [c |-> "", u |-> ""]]
+\* UpdateObjects under the selection cur of the mappings mp
+Updated(ob, cur, mp) == [o \in DOMAIN ob |-> IF cur # NONE /\ ob[o].c \in DOMAIN mp[cur] THEN [ob[o] EXCEPT !.u = mp[cur][ob[o].c]] ELSE ob[o]]
 \* model checking with several workers: the depth is part of the view, so that the bound on the hidden history cuts
 \* the same states in every run; emission (one worker, strict BFS) identifies states across depths
-View == IF ("EMIT" \in DOMAIN IOEnv) /\ IOEnv.EMIT # "0" THEN <<order, maps, current, template>> ELSE <<<<order, maps, current, template>>, Len(hist)>>
+View == IF ("EMIT" \in DOMAIN IOEnv) /\ IOEnv.EMIT # "0" THEN <<order, maps, current, template, objs>> ELSE <<<<order, maps, current, template, objs>>, Len(hist)>>
 
 Out(k, t, x) == [k |-> k, t |-> t, x |-> x]
 Ok == Out("ok", "", Zero)
@@ -47,7 +57,8 @@ RECURSIVE NewId(_)
 NewId(n) == IF ("system " \o ToString(n)) \in Reg THEN NewId(n + 1) ELSE "system " \o ToString(n)
 
 \* the effect of a call: [out, order, maps, current, template, log]
-St(o, ord, mp, cur, tp, lg) == [out |-> o, order |-> ord, maps |-> mp, current |-> cur, template |-> tp, log |-> lg]
+\* (every selection - cur differs from the current one or the call is SetCurrent - runs UpdateObjects: see Step)
+St(o, ord, mp, cur, tp, lg) == [out |-> o, order |-> ord, maps |-> mp, current |-> cur, template |-> tp, log |-> lg, objs |-> objs]
 Same(o) == St(o, order, maps, current, template, log)
 Effect(c) ==
   CASE c.op = "SetTemplate" ->
@@ -78,6 +89,13 @@ Effect(c) ==
          THEN St(Ok, order, [maps EXCEPT ![c.a.id] = Drop(@, c.a.c)], current, template,
                  IF current = c.a.id THEN Append(log, <<"unit", c.a.c, NONE>>) ELSE log)
          ELSE Same(Ok)
+    \* Register(obj): tracked from now on and brought to the current default unit of its category at once (if there is one);
+    \* registering a tracked object again only repeats the update
+    [] c.op = "Register" ->
+         LET ob == IF c.a.o \in DOMAIN objs THEN objs[c.a.o] ELSE ObjPool[c.a.o] IN
+         [Same(Ok) EXCEPT !.objs = (c.a.o :> (IF DefaultUnit(ob.c) # NONE THEN [ob EXCEPT !.u = DefaultUnit(ob.c)] ELSE ob)) @@ objs]
+    \* the client drops its last reference: the manager forgets the object (weak references)
+    [] c.op = "DropObject" -> [Same(Ok) EXCEPT !.objs = [o \in DOMAIN objs \ {c.a.o} |-> objs[o]]]
     [] c.op = "GetNewId" -> Same(Out("ok", NewId(1), Zero))
     [] c.op = "GetCategoryDefaultUnit" -> Same(Out("ok", DefaultUnit(c.a.c), Zero))
     [] c.op = "GetCurrentId" -> Same(Out("ok", current, Zero))
@@ -91,11 +109,13 @@ Effect(c) ==
 Enabled(c) ==
   CASE c.op \in {"SetDefaultUnit", "RemoveCategory"} -> c.a.id \in Reg        \* called on a registered system object
     [] c.op = "SetCurrent" -> c.a.id \in Reg \cup {NONE}                       \* selection selects registered systems or None
+    [] c.op = "DropObject" -> c.a.o \in DOMAIN objs
     [] OTHER -> TRUE
 Step(c) ==
   /\ Len(hist) < MaxCalls /\ c.op \in Ops /\ Enabled(c)
   /\ LET e == Effect(c) IN
      /\ order' = e.order /\ maps' = e.maps /\ current' = e.current /\ template' = e.template /\ log' = e.log
+     /\ objs' = IF IsOk(e.out) /\ (c.op = "SetCurrent" \/ e.current # current) THEN Updated(e.objs, e.current, e.maps) ELSE e.objs
      /\ hist' = Append(hist, [op |-> c.op, a |-> c.a, out |-> e.out])
 
 Call(op, a) == [op |-> op, a |-> a]
@@ -106,6 +126,8 @@ RemoveUnitSystem == \E id \in Ids : Step(Call("RemoveUnitSystem", [id |-> id]))
 SetCurrent       == \E id \in Ids \cup {NONE} : Step(Call("SetCurrent", [id |-> id]))
 SetDefaultUnit   == \E id \in Ids, c \in Cats, u \in Units : Step(Call("SetDefaultUnit", [id |-> id, c |-> c, u |-> u]))
 RemoveCategory   == \E id \in Ids, c \in Cats : Step(Call("RemoveCategory", [id |-> id, c |-> c]))
+Register         == \E o \in DOMAIN ObjPool : Step(Call("Register", [o |-> o]))
+DropObject       == \E o \in DOMAIN ObjPool : Step(Call("DropObject", [o |-> o]))
 GetNewId         == Step(Call("GetNewId", [x |-> 0]))
 QCats == Cats \cup {"depth"}       \* a category that is not the default category of its units
 GetCategoryDefaultUnit == \E c \in QCats : Step(Call("GetCategoryDefaultUnit", [c |-> c]))
@@ -117,8 +139,8 @@ ConvertToCurrent == \E c \in QCats : \E u \in { v \in Units : TypeOf[v] = TypeOf
 ConvertScalarToCurrent == \E c \in QCats : \E u \in { v \in Units : TypeOf[v] = TypeOf[c] }, x \in Xs :
                        Step(Call("ConvertScalarToCurrent", [c |-> c, u |-> u, x |-> x]))
 Init == /\ TLCSet(2, 1 + (EmitOffset % 65520)) /\ order = <<>> /\ maps = EmptyM /\ current = NONE
-        /\ template = [set |-> FALSE, m |-> EmptyM] /\ log = <<>> /\ hist = <<>>
-Next == SetTemplate \/ AddUnitSystem \/ RemoveUnitSystem \/ SetCurrent \/ SetDefaultUnit \/ RemoveCategory
+        /\ template = [set |-> FALSE, m |-> EmptyM] /\ log = <<>> /\ hist = <<>> /\ objs = EmptyO
+Next == SetTemplate \/ AddUnitSystem \/ RemoveUnitSystem \/ SetCurrent \/ SetDefaultUnit \/ RemoveCategory \/ Register \/ DropObject
         \/ GetNewId \/ GetCategoryDefaultUnit \/ GetCurrentId \/ GetUnitSystemById \/ GetQuantityDefaultUnit
         \/ ConvertToCurrent \/ ConvertScalarToCurrent
 Spec == Init /\ [][Next]_vars
@@ -128,7 +150,7 @@ MapsSet(mp) == { [id |-> id, m |-> { [c |-> c, u |-> mp[id][c]] : c \in DOMAIN m
 EmitMode == IF "EMIT" \in DOMAIN IOEnv THEN IOEnv.EMIT ELSE "0"
 EmitRec == PrintT(<<"TR", ToJson([h |-> hist', order |-> order', maps |-> MapsSet(maps'), current |-> current',
                                  tset |-> template'.set, tm |-> { [c |-> c, u |-> template'.m[c]] : c \in DOMAIN template'.m },
-                                 log |-> log'])>>)
+                                 log |-> log', objs |-> { [o |-> o, c |-> objs'[o].c, u |-> objs'[o].u] : o \in DOMAIN objs' }])>>)
 Emit == CASE EmitMode = "all"    -> EmitRec
           [] EmitMode = "last"   -> (Len(hist') = MaxCalls => EmitRec)      \* -simulate: one line per complete behaviour
           [] EmitMode = "sample" -> /\ TLCSet(2, (TLCGet(2) * 17364) % 65521)     \* multiplicative congruential generator
@@ -151,7 +173,15 @@ AddSelectsWhenNone == [][ LET c == hist'[Len(hist')] IN
 RemoveSelectsAnother == [][ LET c == hist'[Len(hist')] IN
                     (c.op = "RemoveUnitSystem" /\ IsOk(c.out) /\ current = c.a.id) =>
                         (current' \in Reg' \cup {NONE} /\ (Reg' # {} => current' # NONE)) ]_vars
-Atomic == [][ ~IsOk(hist'[Len(hist')].out) => UNCHANGED <<order, maps, current, template, log>> ]_vars
+Atomic == [][ ~IsOk(hist'[Len(hist')].out) => UNCHANGED <<order, maps, current, template, log, objs>> ]_vars
+\* tracked objects: whenever a system is selected, every tracked object whose category the system maps is in that unit; an object
+\* keeps its category for ever; only selections and registrations touch the units of tracked objects
+ObjectsFollowSelection == [][ LET c == hist'[Len(hist')] IN
+    (IsOk(c.out) /\ (c.op = "SetCurrent" \/ current' # current) /\ current' # NONE) =>
+        \A o \in DOMAIN objs' : objs'[o].c \in DOMAIN maps'[current'] => objs'[o].u = maps'[current'][objs'[o].c] ]_vars
+ObjectsOtherwiseUntouched == [][ LET c == hist'[Len(hist')] IN
+    /\ \A o \in DOMAIN objs \cap DOMAIN objs' : objs'[o].c = objs[o].c
+    /\ (c.op \notin {"SetCurrent", "Register", "DropObject"} /\ current' = current) => objs' = objs ]_vars
 \* listeners are notified exactly for changes of the current system and for default-unit changes of the current system
 NotifyExactly == [][
     /\ (current' # current) => (Len(log') = Len(log) + 1 /\ log'[Len(log')] = <<"cur", current'>>)
